@@ -18,6 +18,16 @@ STD_ENUMS = {
 }
 
 
+class _Frame(dict):
+    """locals of one activation; cells are created on first use (big functions have hundreds of locals)"""
+    __slots__ = ()
+
+    def __missing__(self, k):
+        c = Cell(UNINIT)
+        self[k] = c
+        return c
+
+
 class Failure:
     """an obligation that can be violated on this path, with a model"""
     __slots__ = ('key', 'desc', 'model', 'extra')
@@ -122,6 +132,9 @@ class Interp:
         self._src_cache = {}
         self._fnparams_cache = {}
         self._subst_cache = {}
+        self._apply_cache = {}
+        self._apply_cache2 = {}
+        self._subst_pats = {}
         self.step_bound = 400000
         self.query_timeout_ms = 60000
         self.solver_time = 0.0
@@ -920,9 +933,24 @@ class Interp:
         sub = self.subst[-1]
         if not sub:
             return callee
-        for k, v in sub.items():
-            callee = re.sub(r'(?<![\w:])' + re.escape(k) + r'(?![\w])', v.replace('\\', '\\\\'), callee)
-        return callee
+        key = (callee, id(sub))
+        r = self._apply_cache.get(key)
+        if r is not None and r[0] is sub:
+            return r[1]
+        key2 = (callee, tuple(sorted(sub.items())))
+        out = self._apply_cache2.get(key2)
+        if out is None:
+            out = callee
+            for k, v in sub.items():
+                if k not in out:
+                    continue
+                pat = self._subst_pats.get(k)
+                if pat is None:
+                    pat = self._subst_pats[k] = re.compile(r'(?<![\w:])' + re.escape(k) + r'(?![\w])')
+                out = pat.sub(lambda m, v=v: v, out)
+            self._apply_cache2[key2] = out
+        self._apply_cache[key] = (sub, out)
+        return out
 
     def find_model(self, callee):
         for pat, fn in self.overrides:
@@ -1187,9 +1215,7 @@ class Interp:
 
     def _run(self, f, args):
         blocks = self._parsed_blocks(f)
-        fr = {}
-        for i in f.local_ty:
-            fr[i] = Cell(UNINIT)
+        fr = _Frame()
         if len(args) != f.nargs:
             raise Unsupported('arity mismatch calling %s: %d args for %d params' % (f.name, len(args), f.nargs))
         for i, a in enumerate(args):
